@@ -36,7 +36,7 @@ type hclConfig struct {
 	Entries []*hclEntry `@@*`
 }
 
-var hclParser = participle.MustBuild[hclConfig](participle.Unquote())
+var hclParser = mustBuild[hclConfig](participle.Unquote())
 
 func init() {
 	f := Register("hcl", hclParser, nil,
